@@ -6,6 +6,8 @@ import (
 	"encoding/json"
 	"fmt"
 	"os"
+	"strconv"
+	"syscall"
 
 	"github.com/tailscale/setec/client/setec"
 
@@ -13,6 +15,11 @@ import (
 )
 
 func main() {
+	if u := os.Getenv("VERIF_UMASK"); u != "" {
+		if n, err := strconv.ParseUint(u, 8, 32); err == nil {
+			syscall.Umask(int(n))
+		}
+	}
 	path, newDoc := os.Args[1], os.Args[2]
 	data, err := os.ReadFile(newDoc)
 	if err != nil {
